@@ -68,8 +68,19 @@ def load_known_findings(prop_id):
 
 
 def matches_known(verdict, known):
+    """
+    an open finding is identified by the clause that fails AND by the specific input / call site that fails
+    (every string of entry["detail_contains"] must occur in the failure's detail) - a different violation of the same
+    clause is still reported. An entry without detail_contains matches nothing.
+    """
     for entry in known:
-        if entry.get("fingerprint") and entry["fingerprint"] == verdict.get("fingerprint"):
+        needles = entry.get("detail_contains") or []
+        if (
+            entry.get("fingerprint")
+            and entry["fingerprint"] == verdict.get("fingerprint")
+            and needles
+            and all(needle in (verdict.get("detail") or "") for needle in needles)
+        ):
             return entry
     return None
 
